@@ -19,7 +19,7 @@ from typing import Any, ClassVar, TypeAlias, Union, get_args, get_origin, get_ty
 
 from typing_extensions import Self
 
-from xdsl.utils.exceptions import ArgSpecParseError
+from xdsl.utils.exceptions import ArgSpecParseError, ParseError
 from xdsl.utils.lexer import Input, Span, Token
 from xdsl.utils.mlir_lexer import StringLiteral
 
@@ -562,7 +562,15 @@ def _parse_parameter_value_element(lexer: PipelineLexer) -> ParameterType:
             # string literals are converted to unescaped strings
             str_token = StringLiteral.from_span(span)
             assert str_token is not None
-            return str_token.string_contents
+            try:
+                return str_token.string_contents
+            except (ParseError, UnicodeError) as e:
+                # \f, \v, \r and undecodable bytes are lexed but have no string value
+                msg = str(e).strip().splitlines()[-1].strip()
+                raise ArgSpecParseError(
+                    SpecToken(SpecTokenKind.STRING_LIT, span),
+                    f"Invalid string literal: {msg}",
+                ) from e
         case Token(kind=SpecTokenKind.NUMBER, span=span):
             # NUMBER is both float and int
             # if the token contains a `.` it's a float
